@@ -81,6 +81,8 @@ def pinned_cases():
     yield 'queries', {'kind': 'tcpcl', 'cfg': cfg, 'ops': ops}
     yield 'stack-reconnect', {'kind': 'stack', 'keepalive': 0, 'hops': ['tcpcl', 'udpcl'], 'umtu': 100, 'rmtu': None, 'size': 300,
                               'ops': [['send', 1, 3, True, 0], ['cut', 2], ['send', 3, 1, False, 1], ['send', 1, 3, True, 1]]}
+    yield 'stack-finish-then-terminate', {'kind': 'stack', 'hops': ['tcpcl', 'tcpcl'], 'keepalive': 10, 'rmtu': 150, 'size': 8, 'umtu': None,
+                                          'ops': [['send', 1, 3, True, 0], ['send', 3, 2, False, 0], ['cut', 2], ['send', 1, 2, True, 1]]}
     yield 'pop-to-unwritable-file', {'kind': 'tcpcl', 'cfg': cfg,
                                      'ops': [['estab'], ['send', 'A', 11, 1], ['run', [0, 1] * 30], ['query', 'B', 'recv_bundle_get_queue'],
                                              ['query', 'B', 'pop_file_bad'], ['pop', 'B']]}
